@@ -671,6 +671,40 @@ def add_edge_templates(rng, spec, p=0.5, uniq='', delayed=False):
     return spec
 
 
+def gen_big(rng, kind=None, delays=None, uniq=''):
+    """10-16 nodes of ONE operator kind (a vectorized group beyond the matrix_sparseness threshold) wired as a ring, a
+    shuffled chain, a hub fan-out or a converging pattern (every node fed by its two predecessors); distinct weights"""
+    lib = rng.choice(['lin', 'leak', 'integ'])
+    n = rng.randint(10, 16)
+    spec = gen_net(rng, n_nodes=n, libs=(lib,), max_edges=0, uniq=uniq, build='python')
+    names = list(spec['nodes'])
+    opn = next(iter(spec['ops'].values()))['name']
+    out, inn = LIB[lib]['out'], LIB[lib]['in']
+    kind = kind or rng.choice(['ring', 'chain', 'fan', 'converge'])
+    pairs = []
+    if kind == 'ring':
+        pairs = [(names[i], names[(i + 1) % n]) for i in range(n)]
+    elif kind == 'chain':
+        order = names[:]
+        rng.shuffle(order)
+        pairs = list(zip(order[:-1], order[1:]))
+        rng.shuffle(pairs)
+    elif kind == 'fan':
+        pairs = [(names[0], t) for t in names[1:]]
+    else:
+        pairs = [(names[i - 1], names[i]) for i in range(n)] + [(names[i - 2], names[i]) for i in range(n)]
+    w = list(range(-40, 41))
+    w.remove(0)
+    rng.shuffle(w)
+    for s_, t_ in pairs:
+        a = {'weight': w.pop() / 16}
+        if delays:
+            a.update(delays(rng))
+        spec['edges'].append([f'{s_}/{opn}/{out}', f'{t_}/{opn}/{inn}', a])
+    spec['big_kind'] = kind
+    return spec
+
+
 def sync_twins(spec):
     """twin sub-circuits are ONE template: after a minimiser dropped something from one copy, the first copy is what counts"""
     if spec.get('twin_sub') and spec.get('circuits'):
